@@ -50,10 +50,13 @@ def run(tier):
     sizes = [(2, 1), (2, 2), (3, 2), (4, 2)] if tier == "quick" else [(2, 2), (3, 3), (4, 3), (5, 3), (6, 2), (8, 2)]
     jobs = [("BreakTime:N=%d,T=%d" % (n, t), job_breaktime, {"N": n, "T": t}) for n, t in sizes]
     jobs += [("TransOffset:%s" % f, job_transoffset, {"form": f, "N": 0, "T": 0}) for f in ("J", "N", "M")]
-    return J.run_property("C01", tier, jobs, {"BreakTime": "break"},
+    from . import tz_ext
+    esz = [(2, 2), (3, 2)] if tier == "quick" else [(2, 2), (3, 3), (4, 3), (6, 2)]
+    jobs += [("ext-BreakTime:N=%d,T=%d" % (n, t), tz_ext.job_breaktime_ext, {"N": n, "T": t}) for n, t in esz]
+    return J.run_property("C01", tier, jobs, {"BreakTime": "break", "ext-BreakTime": "break"},
         "SMT over all int64 instants, all hint values and all well-formed tables of the stated sizes.",
         ["table sizes N (transitions) x T (types): %s; every int64 instant, every hint value, every table content satisfying WF" % sizes],
-        outside=["TZif decoding and acceptance of zic-shaped files, POSIX footer expansion (ExtendTransitions/TransOffset)"])
+        outside=["TZif decoding and acceptance of zic-shaped files (C12 decides the decoding and what Load accepts)"], ext=True)
 
 if __name__ == "__main__":
     sys.exit(run(sys.argv[1] if len(sys.argv) > 1 else "quick"))
